@@ -220,7 +220,7 @@ pub fn random_filter(r: &mut Rng, m: Option<&Message>) -> DltFilterConfig {
 fn suffixes(r: &mut Rng, sh: bool) -> Vec<Vec<u8>> {
     let next = {
         let m = gen::message(r, &MsgOpts { storage: Some(sh), ..Default::default() });
-        m.as_bytes()
+        gen::ser(&m)
     };
     let k = r.below(12) as usize;
     vec![vec![], vec![0], b"DLT\x01".to_vec(), vec![0x10, 0, 0, 0, 1], vec![0, 2, 0, 0, 2, 0, 65, 66], r.bytes(k), next]
@@ -236,7 +236,7 @@ pub fn record(mode: &str, seed: u64, n: usize, out: &mut Out) {
                 let max_args = if i % 97 == 96 { 255 } else if i % 7 == 6 { 12 } else { 4 };
                 let m = if i % 60 == 31 { gen::boundary_message(&mut r, None) } else { gen::message(&mut r, &MsgOpts { storage: None, big, max_args }) };
                 let sh = m.storage_header.is_some();
-                let b = m.as_bytes();
+                let b = gen::ser(&m);
                 let mut sfx = suffixes(&mut r, sh);
                 if b.len() > 20000 { sfx.truncate(3); }
                 if i % 40 == 7 {
@@ -256,7 +256,7 @@ pub fn record(mode: &str, seed: u64, n: usize, out: &mut Out) {
                 let big = if i % 40 == 39 { 1000 } else { 24 };
                 let m = if i % 150 == 77 { gen::boundary_message(&mut r, None) } else { gen::message(&mut r, &MsgOpts { storage: None, big, max_args: 3 }) };
                 let sh = m.storage_header.is_some();
-                let b = m.as_bytes();
+                let b = gen::ser(&m);
                 out.emit(json!({"op": "enc", "m": proj::message(&m), "bytes": proj::bytes(&b)}), true);
                 if b.len() > 20000 {
                     out.calls += 1;
@@ -366,7 +366,7 @@ pub fn record(mode: &str, seed: u64, n: usize, out: &mut Out) {
                 let big = if i % 40 == 39 { 1000 } else { 24 };
                 let m = if i % 120 == 59 { gen::boundary_message(&mut r, None) } else { gen::message(&mut r, &MsgOpts { storage: None, big, max_args: 3 }) };
                 let sh = m.storage_header.is_some();
-                let b = m.as_bytes();
+                let b = gen::ser(&m); if b.is_empty() { continue; }
                 let mut cands = vec![(b.clone(), sh)];
                 if b.len() > 20000 {
                     if let Some(pm) = item_of(&b, sh) { out.calls += 4; out.emit(stable_event(&pm, sh), true); }
@@ -393,7 +393,7 @@ pub fn record(mode: &str, seed: u64, n: usize, out: &mut Out) {
                 let big = if i % 20 == 19 { 200 } else { 16 };
                 let m = gen::message(&mut r, &MsgOpts { storage: None, big, max_args: 3 });
                 let sh = m.storage_header.is_some();
-                let b = m.as_bytes();
+                let b = gen::ser(&m); if b.is_empty() { continue; }
                 let ks: Vec<usize> = (0..b.len()).collect();
                 let cfg = if i % 2 == 0 { Some(random_filter(&mut r, Some(&m))) } else { None };
                 { let mut c = 0u64; let e = prefixes_event_f(&b, sh, &ks, &mut c, cfg.as_ref()); out.calls += c; out.emit(e, true); }
@@ -418,9 +418,9 @@ pub fn record(mode: &str, seed: u64, n: usize, out: &mut Out) {
                 // very long pattern-free junk (one repeated byte): beyond one reader buffer (10 MiB) in front of a message, and
                 // beyond 2^32 bytes in front of the pattern (the count is a 64-bit number)
                 let m = gen::message(&mut r, &MsgOpts { storage: Some(true), big: 8, max_args: 1 });
-                let b = m.as_bytes();
+                let b = gen::ser(&m);
                 let alone = parse_res(&b, None, true, false);
-                for nj in [10 * 1024 * 1024 - 4usize, 10 * 1024 * 1024, 10 * 1024 * 1024 + 100] {
+                for nj in if b.is_empty() { vec![] } else { vec![10 * 1024 * 1024 - 4usize, 10 * 1024 * 1024, 10 * 1024 * 1024 + 100] } {
                     let mut x = vec![b'X'; nj];
                     x.extend(&b);
                     x.push(7);
@@ -440,7 +440,7 @@ pub fn record(mode: &str, seed: u64, n: usize, out: &mut Out) {
                 out.calls += 1;
                 out.emit(forward_event(&junk), !junk.is_empty());
                 let m = gen::message(&mut r, &MsgOpts { storage: Some(true), big: 16, max_args: 2 });
-                let b = m.as_bytes();
+                let b = gen::ser(&m); if b.is_empty() { continue; }
                 let k = r.below(6) as usize;
                 let sfx = r.bytes(k);
                 let mut with = junk.clone();
@@ -471,7 +471,7 @@ pub fn record(mode: &str, seed: u64, n: usize, out: &mut Out) {
                 let mut stream = vec![];
                 for _ in 0..np {
                     let j = junk_bytes(&mut r);
-                    let mb = gen::message(&mut r, &MsgOpts { storage: Some(true), big: 16, max_args: 2 }).as_bytes();
+                    let mb = gen::message(&mut r, &MsgOpts { storage: Some(true), big: 16, max_args: 2 }); let mb = gen::ser(&mb); if mb.is_empty() { continue; }
                     stream.extend(&j);
                     stream.extend(&mb);
                     out.calls += 1;
@@ -502,7 +502,7 @@ pub fn record(mode: &str, seed: u64, n: usize, out: &mut Out) {
                 for _ in 0..nm {
                     if sh && r.one_in(3) { stream.extend(junk_bytes(&mut r)); }
                     let m = gen::message(&mut r, &MsgOpts { storage: Some(sh), big: 16, max_args: 2 });
-                    let mut b = m.as_bytes();
+                    let mut b = gen::ser(&m); if b.is_empty() { continue; }
                     if r.one_in(3) { b = corrupt_payload(&mut r, &b, sh); }
                     stream.extend(b);
                 }
@@ -519,7 +519,7 @@ pub fn record(mode: &str, seed: u64, n: usize, out: &mut Out) {
                 // single calls on mutated messages: whatever succeeds must consume the declared frame
                 let m = gen::message(&mut r, &MsgOpts { storage: None, big: 16, max_args: 2 });
                 let shm = m.storage_header.is_some();
-                let b = m.as_bytes();
+                let b = gen::ser(&m); if b.is_empty() { continue; }
                 for _ in 0..3 {
                     let mut x = if r.coin() { corrupt_payload(&mut r, &b, shm) } else { gen::mutate(&mut r, &b, shm) };
                     let k = r.below(8) as usize;
@@ -536,7 +536,7 @@ pub fn record(mode: &str, seed: u64, n: usize, out: &mut Out) {
             for i in 0..n {
                 let m = gen::message(&mut r, &MsgOpts { storage: None, big: 12, max_args: 2 });
                 let sh = m.storage_header.is_some();
-                let mut b = m.as_bytes();
+                let mut b = gen::ser(&m); if b.is_empty() { continue; }
                 if i % 9 == 8 { b = corrupt_payload(&mut r, &b, sh); }
                 let k = r.below(4) as usize;
                 b.extend(r.bytes(k));
@@ -795,7 +795,7 @@ pub fn hostile_inputs(r: &mut Rng, big: usize) -> Vec<(Vec<u8>, bool)> {
     let mut v: Vec<(Vec<u8>, bool)> = vec![];
     let m = gen::message(r, &MsgOpts { storage: None, big: big.min(60000), max_args: if big > 1000 { 40 } else { 3 } });
     let sh = m.storage_header.is_some();
-    let b = m.as_bytes();
+    let b = gen::ser(&m); if b.is_empty() { return vec![(vec![], false)]; }
     let o = if sh { 16 } else { 0 };
     let htyp = b[o];
     let std = 4 + 4 * ((htyp >> 2 & 1) + (htyp >> 3 & 1) + (htyp >> 4 & 1)) as usize;
